@@ -14,7 +14,6 @@ use core::mem;
 //@map /Arc<dyn ValidatorFactory>/ => VxValidatorFactory
 //@map /Option<RefCell<BlockDecodeState>>/ => Option<VxDecodeState>
 //@map /\bString\b/ => VxMsg
-//@map /prev_filter_header\.to_byte_array\(\)\.iter\(\)\.all\(\|x\| \*x == 0\)/ => prev_filter_header.vx_all_zero()
 //@map /Self::MAX_REORG_SIZE/ => MAX_REORG_SIZE
 //@macro error_invalid_chain => Error::InvalidChain
 //@macro error_orphan_block => Error::OrphanBlock(vx_msg())
@@ -98,7 +97,7 @@ impl<L: ChainListener> ChainTracker<L> {
             (match external { Some(h) => Some(*h), None => None }), *prev_filter_header, is_remove),
     { unimplemented!() }
 
-//@fn vls-core/src/chain/tracker.rs :: impl<L: ChainListener> ChainTracker<L> :: validate_block props=C13
+//@fn vls-core/src/chain/tracker.rs :: impl<L: ChainListener> ChainTracker<L> :: validate_block props=C13 optiters
     requires height < 0x7fff_ffff, prev_headers.0.time <= 0xffff_0000,
     ensures
         r.is_ok() ==> block_follows(self.listeners, self.trusted_oracle_pubkeys, self.network, height, (match external_block_hash { Some(h) => Some(*h), None => None }),
